@@ -263,7 +263,8 @@ def call_strategy():
         st.tuples(st.sampled_from(HALT_TEMP), st.sampled_from(["S", "R", "s"]),
                   anyf).map(lambda t: {"op": "halt", "mode": t[0],
                                        "letter": t[1], "v": t[2]}),
-        pos.map(lambda v: {"op": "sleep", "v": v}),
+        st.tuples(pos, st.sampled_from([None, "ms", "s"])).map(
+            lambda t: {"op": "sleep", "v": t[0], "units": t[1]}),
         st.tuples(value_strategy(nonneg=True, allow_np=False, small=True),
                   st.integers(0, 9)).map(
             lambda t: {"op": "set_fan_speed", "v": t[0], "fan": t[1]}),
@@ -278,13 +279,20 @@ def call_strategy():
             {"op": "set_extrusion_mode", "mode": "relative"},
             {"op": "set_distance_mode", "mode": "absolute"},
             {"op": "pause"}, {"op": "stop"}, {"op": "wait"},
+            {"op": "set_time_units", "mode": "ms"}, {"op": "set_time_units", "mode": "s"},
+            {"op": "set_temperature_units", "mode": "kelvin"},
             {"op": "comment", "text": "plain comment"},
             {"op": "comment", "text": "Ünï ✓ text"},
             {"op": "annotate", "key": "tool_d", "text": "3.175 mm"},
             {"op": "emergency_halt", "text": "stop now", "reset": True},
             {"op": "emergency_halt", "text": "stop", "reset": False},
         ]))
-    reconf = st.integers(0, 12).map(lambda n: {"op": "reconfig", "dp": n})
+    reconf = st.one_of(
+        st.integers(0, 12).map(lambda n: {"op": "reconfig", "dp": n}),
+        st.sampled_from([{"decimal_places": 1}, {"decimal_places": 0, "y_axis": "V"},
+                         {"x_axis": "A", "z_axis": "C", "comment_symbols": "("},
+                         {"decimal_places": 12, "line_endings": "\\r\\n", "comment_symbols": "#"}]).map(
+            lambda c: {"op": "other_builder", "cfg": c}))
     return st.one_of(*[motion(op) for op in MOTION], scalar, scalar, plain, reconf,
                      st.just({"op": "repeat"}), st.just({"op": "repeat"}))
 
@@ -345,6 +353,8 @@ def _build(call, dp, labels):
     if op == "set_fan_speed":
         v = resolve(call["v"], dp)
         return {"op": op, "args": [v, call["fan"]]}, {"S": v, "P": call["fan"]}, 1, [v]
+    if op in ("set_time_units", "set_temperature_units"):
+        return {"op": op, "args": [call["mode"]]}, {}, 0, []
     if op in ("coolant_on", "query", "set_plane", "set_length_units",
               "set_feed_mode", "set_extrusion_mode", "set_distance_mode"):
         return {"op": op, "args": [call["mode"]]}, {}, 1, []
@@ -378,12 +388,23 @@ def check_builder_case(case, ctx=None):
             s.dp = dp
             classes.add("decimal_places_changed_mid_program")
             continue
+        if call["op"] == "other_builder":
+            import gscrib
+            from vf.common import recorder_class
+            other = gscrib.GCodeBuilder(**call["cfg"])
+            other.add_writer(recorder_class()())
+            other.move(x=0.123456789, y=2, comment="other")
+            classes.add("other_builder_created_mid_program")
+            continue
         if call["op"] == "repeat":
             if last_call is None:
                 continue
             call = last_call
             classes.add("same_values_emitted_again")
         last_call = call
+        if call["op"] == "sleep" and call.get("units"):
+            s.g.set_time_units(call["units"])     # dwell in milliseconds / seconds
+            classes.add("sleep_units:" + call["units"])
         desc, exp, nlines, values = _build(call, dp, cfg["labels"])
         for d, v in zip(_descs(call), values):
             classes.update(value_classes(d, v, dp))
@@ -433,7 +454,7 @@ def check_builder_case(case, ctx=None):
         if len(blocks) != nlines:
             raise Violation(f"{call['op']} emitted {len(blocks)} lines, expected "
                             f"{nlines}: {bytes(s.rec.data[before:])!r}")
-        if exp is None:
+        if exp is None or nlines == 0:
             continue
         words, comments, raw = blocks[0]
         # every numeric word that carries a requested value
